@@ -7,16 +7,36 @@
 package main
 
 import (
+	_ "embed"
 	"flag"
 	"fmt"
 	"os"
 	"path/filepath"
 	"strconv"
+	"strings"
 	"time"
 
 	"sopverif/eng"
 	"sopverif/rules"
 )
+
+// baselineFuncs lists the functions (and local closures, "func$name") of the product packages on the reference tree;
+// calls of functions that are not listed are inlined before the analysis (see eng/inline.go). Regenerate with
+// `sopverif baseline > checker/baseline_funcs.txt` when the reference tree changes (e.g. after a fix commit).
+//
+//go:embed baseline_funcs.txt
+var baselineFuncs string
+
+func baseline() map[string]bool {
+	m := map[string]bool{}
+	for _, l := range strings.Split(baselineFuncs, "\n") {
+		l = strings.TrimSpace(l)
+		if l != "" && !strings.HasPrefix(l, "#") {
+			m[l] = true
+		}
+	}
+	return m
+}
 
 func main() {
 	if len(os.Args) < 2 {
@@ -38,6 +58,41 @@ func main() {
 		fmt.Println()
 	case "locks":
 		os.Exit(locksCmd("/repo"))
+	case "normalize":
+		// sopverif normalize <repo> [file-suffix]: prints what the normalisation inlines (and the normalised file)
+		repo := "/repo"
+		if len(os.Args) > 2 {
+			repo = os.Args[2]
+		}
+		p, rep, err := eng.Normalize(repo, nil, baseline())
+		if err != nil {
+			fmt.Fprintln(os.Stderr, err)
+			os.Exit(2)
+		}
+		for _, l := range rep.Inlined {
+			fmt.Println("inlined:", l)
+		}
+		for _, l := range rep.Skipped {
+			fmt.Println("skipped:", l)
+		}
+		fmt.Println("rounds:", rep.Rounds, "failed:", rep.Failed)
+		if len(os.Args) > 3 {
+			for name, src := range p.Overlay {
+				if strings.HasSuffix(name, os.Args[3]) {
+					os.Stdout.Write(src)
+				}
+			}
+		}
+	case "baseline":
+		p, err := eng.Load("/repo", nil)
+		if err != nil {
+			fmt.Fprintln(os.Stderr, err)
+			os.Exit(2)
+		}
+		fmt.Println("# functions and local closures of the product packages on the reference tree (sopverif baseline)")
+		for _, k := range eng.BaselineKeys(p) {
+			fmt.Println(k)
+		}
 	case "mutants":
 		os.Exit(mutantsCmd(os.Args[2:]))
 	case "list":
@@ -101,7 +156,7 @@ func check(args []string) int {
 		fmt.Fprintln(os.Stderr, "known findings:", err)
 		return fail(ids, *verif, "cannot read known_findings.json: "+err.Error())
 	}
-	p, err := eng.Load(*repo, nil)
+	p, inl, err := eng.Normalize(*repo, nil, baseline())
 	if err != nil {
 		fmt.Fprintln(os.Stderr, "load:", err)
 		return fail(ids, *verif, "cannot load/type-check the repository: "+err.Error())
@@ -116,6 +171,9 @@ func check(args []string) int {
 		pr := rules.Get(id)
 		c := eng.NewCtx(p, id, *tier)
 		c.Extra["load_s"] = loadS
+		if inl != nil && (len(inl.Inlined) > 0 || inl.Failed != "") {
+			c.Extra["normalisation"] = map[string]any{"inlined": inl.Inlined, "rounds": inl.Rounds, "failed": inl.Failed, "skipped": inl.Skipped}
+		}
 		func() {
 			defer func() {
 				if r := recover(); r != nil {
